@@ -187,6 +187,16 @@ def model_nh(e, p):
     return r + a, (r if (pol and e['og'] != e['seg'][0]) else a), pol
 
 
+def covered_proj(rng, mdd, pops, nchr, cap, lo=1):
+    """A projection vector most SNPs of the model dictionary are adequately called for."""
+    proj = []
+    for p, n in zip(pops, nchr):
+        called = sorted(sum(e['calls'][p][:2]) for e in mdd.values() if len(e['seg']) == 2)
+        q = called[len(called) // 3] if called else n
+        proj.append(rng.randint(lo, max(lo, min(cap, q, n))))
+    return proj
+
+
 def sqrt_table(dd, p, m, pol):
     """c = sqrt(e1 S + e2 S (S-1)) with S counted from the model dictionary (float sqrt; verified by TLC)."""
     if m < 4:
@@ -280,6 +290,20 @@ def scenario_records(ctx, k, workdir):
         dd, out = observe(lambda: Misc.make_data_dict_vcf(vcf, popf, filter=filt, **kw), lambda d: {'dd': enc_dd(d)})
         add('vcf', 'Misc.make_data_dict_vcf', {'vcf': A, 'filter': filt}, out)
         dds[filt] = dd
+    # the documentation allows either file to be gzipped or zipped: same dictionary expected
+    if k % 3 == 1:
+        how = rng.choice(['gz', 'zip'])
+        cpop = popf + '.' + how
+        if how == 'gz':
+            import gzip
+            with open(popf, 'rb') as fi, gzip.open(cpop, 'wb') as fo:
+                fo.write(fi.read())
+        else:
+            import zipfile
+            with zipfile.ZipFile(cpop, 'w') as z:
+                z.write(popf, os.path.basename(popf))
+        _, out = observe(lambda: Misc.make_data_dict_vcf(vcf, cpop, filter=True), lambda d: {'dd': enc_dd(d)})
+        add('vcf', 'Misc.make_data_dict_vcf:popinfo.' + how, {'vcf': A, 'filter': True, 'popinfo': how}, out)
     filt = rng.random() < 0.75
     dd = dds[filt]
     if dd is None:
@@ -333,8 +357,7 @@ def scenario_records(ctx, k, workdir):
         chunks = out['chunks']
         if len(chunks) > 80:
             continue
-        cap = {1: 10, 2: 5, 3: 3}[P]
-        proj = [rng.randint(1, min(n, cap)) for n in nchr]
+        proj = covered_proj(rng, mdd, pops, nchr, {1: 10, 2: 5, 3: 3}[P])
         pol = rng.random() < 0.6
         mc = rng.random() < 0.5
 
@@ -373,14 +396,14 @@ def scenario_records(ctx, k, workdir):
             tab = {'sqrtC': c if c is not None else 'na'}
         add('stats', 'Spectrum.statistics', dict(source, pops=list(pp), proj=[int(x) for x in proj], pol=pol, mask_corners=mc), out, tab=tab)
     for p, n in zip(pops, nchr):
-        ms = sorted(set([n, rng.randint(2, n), rng.randint(4, max(4, n))]))
+        ms = sorted(set([n, rng.randint(2, n), rng.randint(4, max(4, n)), covered_proj(rng, mdd, [p], [n], n, lo=4)[0]]))
         for m in (ms if not quick else rng.sample(ms, min(2, len(ms)))):
             if m <= n:
                 stats_record(src, dd, mdd, [p], [m], rng.random() < 0.7, rng.random() < 0.5)
     if P >= 2:
         cap = {2: 12, 3: 6}[P]
         for _ in range(2 if quick else 4):
-            proj = [rng.randint(2, min(n, cap)) for n in nchr]
+            proj = covered_proj(rng, mdd, pops, nchr, cap, lo=2) if rng.random() < 0.7 else [rng.randint(2, min(n, cap)) for n in nchr]
             stats_record(src, dd, mdd, pops, proj, rng.random() < 0.7, rng.random() < 0.5)
         two = rng.sample(pops, 2)
         stats_record(src, dd, mdd, two, [min(2 * scn['ninds'][pops.index(p)], 10) for p in two], True, True)
@@ -505,6 +528,17 @@ def table_records(ctx, k, workdir):
         for cs in (rng.randint(1, 5), rng.randint(6, 40)):
             frags, out = observe(lambda: Misc.fragment_data_dict(extra, cs), lambda fr: {'chunks': [[str(x) for x in f] for f in fr]})
             add('fragment', 'Misc.fragment_data_dict', {'where': where_of(list(extra), kn), 'cs': cs}, out)
+        # a recurrent mutation at a site that also has a plain key: chromosome_position and chromosome_position.info
+        plain = [key for key in extra if '.' not in key.rsplit('_', 1)[1]]
+        if plain:
+            rec_dd = dict(extra)
+            key = rng.choice(plain)
+            rec_dd[key + '.r2'] = extra[key]
+            kn2 = dict(kn)
+            kn2[key + '.r2'] = kn[key]
+            cs = rng.randint(3, 30)
+            frags, out = observe(lambda: Misc.fragment_data_dict(rec_dd, cs), lambda fr: {'chunks': [[str(x) for x in f] for f in fr]})
+            add('fragment', 'Misc.fragment_data_dict:recurrent-site', {'where': where_of(list(rec_dd), kn2), 'cs': cs}, out)
     return recs
 
 
@@ -610,7 +644,7 @@ def nontrivial(r):
 
 
 def run(ctx):
-    mcs = [('DataDictMC', 'DataDictMC_%s_%s.cfg' % (m, ctx.tier)) for m in ('geno1', 'geno2', 'flags')]
+    mcs = [('DataDictMC', 'DataDictMC_%s_%s.cfg' % (m, ctx.tier)) for m in (('geno1', 'geno2', 'flags') if ctx.quick else ('geno1', 'geno2', 'geno2b', 'flags'))]
     if ctx.replay:
         rec = ctx.replay_payload['payload']['record']
         ctx.no_mc = True
